@@ -76,10 +76,10 @@ func (c *c10StoreCase) observeRetention(site string) store.RetentionState {
 	}
 	c.r.Count("store.retention_observations", 1)
 	if rs.LocalRetentionThroughSeq < c.lastLocal {
-		c.r.Violation("retention-boundary-decreased:store-local:"+c.kind, c.witness(map[string]any{"site": site, "before": c.lastLocal, "after": rs.LocalRetentionThroughSeq}))
+		c10V(c.r, "retention-boundary-decreased:store-local:"+c.kind, c.witness(map[string]any{"site": site, "before": c.lastLocal, "after": rs.LocalRetentionThroughSeq}))
 	}
 	if rs.PhysicalRetentionThroughSeq < c.lastPhys {
-		c.r.Violation("retention-boundary-decreased:store-physical:"+c.kind, c.witness(map[string]any{"site": site, "before": c.lastPhys, "after": rs.PhysicalRetentionThroughSeq}))
+		c10V(c.r, "retention-boundary-decreased:store-physical:"+c.kind, c.witness(map[string]any{"site": site, "before": c.lastPhys, "after": rs.PhysicalRetentionThroughSeq}))
 	}
 	if rs.LocalRetentionThroughSeq > c.lastLocal {
 		c.lastLocal = rs.LocalRetentionThroughSeq
@@ -167,6 +167,18 @@ func (c *c10StoreCase) stepAdopt() {
 	if through == 0 {
 		through = 1
 	}
+	if c.kind == "memory" && through > c.leo {
+		// The memory store is an index-addressed test double: adopting beyond
+		// the log end leaves a hole in its record slice and every record
+		// appended afterwards becomes unreadable (recordBySeqLocked). That is a
+		// limitation of the double, not a C10 subject, so the memory store is
+		// never driven beyond its log end (the MessageDB adapter is).
+		through = c.leo
+		c.r.Count("store.adopt_clamped_memory", 1)
+		if through == 0 {
+			return
+		}
+	}
 	before := c.lastLocal
 	retained, err := c.cs.AdoptRetentionBoundary(context.Background(), through, ch.RetentionCursorCommitted)
 	c.logf("adopt through=%d (local before %d) -> retained_max=%d err=%v", through, before, retained, err)
@@ -192,7 +204,7 @@ func (c *c10StoreCase) stepAdopt() {
 }
 
 func (c *c10StoreCase) fullRead() (map[uint64]ch.Message, bool) {
-	res, err := c.cs.ReadCommitted(context.Background(), store.ReadCommittedRequest{FromSeq: 1, Limit: 1 << 20, MaxBytes: 1 << 30})
+	res, err := c.cs.ReadCommitted(context.Background(), store.ReadCommittedRequest{FromSeq: 1, Limit: int(c.leo) + 16, MaxBytes: 1 << 30})
 	if err != nil {
 		c.r.Count("store.fullread_err", 1)
 		return nil, false
@@ -237,10 +249,10 @@ func (c *c10StoreCase) stepTrim() {
 			c.sawTrim = true
 			c.r.Count("store.trim_deleting", 1)
 			if res.DeletedThroughSeq > through {
-				c.r.Violation("trim-deleted-above-requested-boundary:"+c.kind, c.witness(map[string]any{"through": through, "deleted_through": res.DeletedThroughSeq}))
+				c10V(c.r, "trim-deleted-above-requested-boundary:"+c.kind, c.witness(map[string]any{"through": through, "deleted_through": res.DeletedThroughSeq}))
 			}
 			if res.DeletedThroughSeq > rs.LocalRetentionThroughSeq || through > localBefore && res.DeletedThroughSeq > localBefore {
-				c.r.Violation("trim-deleted-above-adopted-boundary:"+c.kind, c.witness(map[string]any{"through": through, "deleted_through": res.DeletedThroughSeq, "local_before": localBefore, "local_after": rs.LocalRetentionThroughSeq}))
+				c10V(c.r, "trim-deleted-above-adopted-boundary:"+c.kind, c.witness(map[string]any{"through": through, "deleted_through": res.DeletedThroughSeq, "local_before": localBefore, "local_after": rs.LocalRetentionThroughSeq}))
 			}
 			if res.DeletedThroughSeq > c.deleted {
 				c.deleted = res.DeletedThroughSeq
@@ -264,7 +276,7 @@ func (c *c10StoreCase) stepTrim() {
 	c.shadow.mu.Unlock()
 	if len(missing) > 0 {
 		sort.Slice(missing, func(i, j int) bool { return missing[i] < missing[j] })
-		c.r.Violation("trim-removed-message-above-deleted-through:"+c.kind, c.witness(map[string]any{"through": through, "reported_deleted_through": c.deleted, "missing": missing}))
+		c10V(c.r, "trim-removed-message-above-deleted-through:"+c.kind, c.witness(map[string]any{"through": through, "reported_deleted_through": c.deleted, "missing": missing}))
 	}
 	for seq := range got {
 		if seq <= c.deleted {
@@ -297,20 +309,20 @@ func (c *c10StoreCase) stepRead() {
 	}
 	for i, m := range res.Messages {
 		if q.MinSeq > 0 && m.MessageSeq < q.MinSeq {
-			c.r.Violation("store-read-below-minseq:"+dir+":"+c.kind, w())
+			c10V(c.r, "store-read-below-minseq:"+dir+":"+c.kind, w())
 			break
 		}
 		if q.MaxSeq > 0 && m.MessageSeq > q.MaxSeq {
-			c.r.Violation("store-read-above-maxseq:"+dir+":"+c.kind, w())
+			c10V(c.r, "store-read-above-maxseq:"+dir+":"+c.kind, w())
 			break
 		}
 		rec, ok := c.shadow.get(m.MessageSeq)
 		if !ok || rec.ID != m.MessageID || rec.Payload != string(m.Payload) {
-			c.r.Violation("store-read-phantom-message:"+c.kind, w())
+			c10V(c.r, "store-read-phantom-message:"+c.kind, w())
 			break
 		}
 		if rec.SyncOnce != m.SyncOnce {
-			c.r.Violation("store-read-synconce-marker-changed:"+c.kind, w())
+			c10V(c.r, "store-read-synconce-marker-changed:"+c.kind, w())
 			break
 		}
 		if i > 0 {
